@@ -19,6 +19,7 @@ EXPLANATION = ("Static rules over ProcessTasks/MakeTasks/Multiprocessor: under t
                "before the yield, the per-task try/except contains every failure, shared evaluation state "
                "(CobaContext.learning_info) is cleared per evaluation, and chunks cross the process boundary pickled.")
 EXPLANATION += ' R7: learners held by environment filters reach evaluate/learn/predict only as deep copies.'
+EXPLANATION += ' R11: learning_info cleared before every copy into a row (must-pass, every evaluator); R12: Task.copy written only by the constructor; R13: evaluators hold no generator.'
 EXPLANATION += ' R8: no class-level mutable container on the evaluation path and stateless built-in evaluators; R9: __reduce__ passes every constructor parameter; R10: a failing source cannot leave a truncated replay buffer to the other triples.'
 
 PROC = "coba/experiments/process.py"
@@ -40,6 +41,9 @@ def run(ctx):
     r9_pickle_covers_constructor(ctx)
     # a source that fails in one triple must not leave a truncated replay buffer for the triples that share the cached environment
     c04.r6_replay_buffer(ctx, rule="C03.R10")
+    r11_learning_info(ctx)
+    r12_copy_flag_owner(ctx)
+    r13_evaluators_hold_no_generator(ctx)
 
 
 def evaluate_calls(fn):
@@ -493,6 +497,118 @@ def r9_pickle_covers_constructor(ctx):
         ctx.ob("C03.R9", PROC, "Task", task.node if hasattr(task, "node") else None, "Task is pickled by the default protocol (every attribute, incl. the copy flag, travels to the worker)", True, stmt="Task default pickling", line=1)
 
 
+def r11_learning_info(ctx, rule="C03.R11"):
+    """must-pass: CobaContext.learning_info is process-global; an evaluator that copies it into its rows has cleared it first."""
+    from ..cfg import forward
+    from ..util import name_bound, node_ast_for_effects
+    ctx.rule(rule, "every evaluator function that copies the process-global CobaContext.learning_info into a row has cleared it on every path from "
+                   "its entry to that copy (must-pass-through on the CFG): what an earlier evaluation left there never reaches another triple's rows")
+    n = 0
+    for mod_rel, tree in sorted((r_, m_.tree) for r_, m_ in ctx.model.modules.items()):
+        if not mod_rel.startswith("coba/evaluators/"):
+            continue
+        for fn in [x for x in ast.walk(tree) if isinstance(x, (ast.FunctionDef,))]:
+            if not any(unparse(v) == "CobaContext.learning_info" for v in ast.walk(fn) if isinstance(v, ast.Attribute)):
+                continue
+            if any(isinstance(x, ast.FunctionDef) and x is not fn and any(unparse(v) == "CobaContext.learning_info" for v in ast.walk(x) if isinstance(v, ast.Attribute)) for x in ast.walk(fn)):
+                continue  # judged at the inner function
+            INFO = name_bound(fn, lambda v: unparse(v) == "CobaContext.learning_info", None)
+            names = {"CobaContext.learning_info"} | ({INFO} if INFO else set())
+            from ..model import qualname as _qn; qual = _qn(fn)
+            g = CFG(fn)
+
+            def is_clear(node):
+                a = node_ast_for_effects(node)
+                return a is not None and any(isinstance(c, ast.Call) and isinstance(c.func, ast.Attribute) and c.func.attr == "clear"
+                                             and unparse(c.func.value) in names for c in ast.walk(a))
+
+            def reads(node):
+                a = node_ast_for_effects(node)
+                if a is None:
+                    return []
+                return [c for c in ast.walk(a) if isinstance(c, ast.Call) and isinstance(c.func, ast.Attribute) and c.func.attr in ("update",)
+                        and c.args and unparse(c.args[0]) in names] + \
+                       [c for c in ast.walk(a) if isinstance(c, ast.Call) and call_name(c) in ("dict", "list") and c.args and unparse(c.args[0]) in names] + \
+                       [c for c in ast.walk(a) if isinstance(c, ast.Starred) and unparse(c.value) in names] + \
+                       [k for k in ast.walk(a) if isinstance(k, ast.Dict) for kk, vv in zip(k.keys, k.values) if kk is None and unparse(vv) in names]
+
+            def transfer(node, st, label):
+                if label in ("exc", "abandon"):
+                    return st
+                return True if is_clear(node) else st
+            IN = forward(g, False, transfer, lambda a, b: a and b)
+            for node in g.nodes:
+                if node.id not in IN:
+                    continue
+                for r in reads(node):
+                    n += 1
+                    ctx.ob(rule, mod_rel, qual, r, "learning_info was cleared on every path from the function's entry to this copy into a row", bool(IN[node.id]))
+    ctx.floor(rule, "copies of learning_info into evaluator rows", n, 2)
+
+
+def r12_copy_flag_owner(ctx, rule="C03.R12"):
+    ctx.rule(rule, "who-may-write: the copy flag of a Task is decided where the occurrences over ALL triples are known (the Task constructor called "
+                   "from MakeTasks); no other function of the experiment machinery rewrites it (a chunk-local count is wrong whenever chunks share a process)")
+    n = 0
+    for mod_rel, tree in sorted((r_, m_.tree) for r_, m_ in ctx.model.modules.items()):
+        if not (mod_rel.startswith("coba/experiments/") or mod_rel.startswith("coba/pipes/")) or "/tests/" in mod_rel:
+            continue
+        for fn in [x for x in ast.walk(tree) if isinstance(x, ast.FunctionDef)]:
+            from ..model import qualname as _qn; qual = _qn(fn)
+            for st in walk_shallow(fn):
+                tg = []
+                if isinstance(st, ast.Assign):
+                    tg = [t for t0 in st.targets for t in (t0.elts if isinstance(t0, (ast.Tuple, ast.List)) else [t0])]
+                elif isinstance(st, (ast.AugAssign, ast.AnnAssign)):
+                    tg = [st.target]
+                elif isinstance(st, ast.Call) and call_name(st) == "setattr" and len(st.args) >= 2 and const_str(st.args[1]) == "copy":
+                    tg = [ast.Attribute(value=st.args[0], attr="copy", ctx=ast.Store())]
+                for t in tg:
+                    if isinstance(t, ast.Attribute) and t.attr == "copy":
+                        n += 1
+                        ok = qual == "Task.__init__" and is_self_attr(t)
+                        ctx.ob(rule, mod_rel, qual, st, "the copy flag is written only by the Task constructor", ok)
+    ctx.floor(rule, "writes of a .copy attribute in the experiment machinery", n, 1)
+
+
+def r13_evaluators_hold_no_generator(ctx, rule="C03.R13"):
+    ctx.rule(rule, "an evaluator object is shared by every triple that names it: no evaluator attribute holds a random generator or an iterator "
+                   "(its position would carry from one evaluation into the next); generators are created inside evaluate()")
+    base = ctx.model.cls("coba/primitives.py", "Evaluator")
+    n = 0
+    for c in ctx.model.subclasses(base):
+        if not c.rel.startswith("coba/evaluators/") and c.rel != "coba/safety.py":
+            continue
+        for name, fn in sorted(c.methods.items()):
+            for st in walk_shallow(fn):
+                if not isinstance(st, (ast.Assign, ast.AnnAssign)) or st.value is None:
+                    continue
+                tg = st.targets if isinstance(st, ast.Assign) else [st.target]
+                if not any(is_self_attr(t) for t in tg):
+                    continue
+                n += 1
+                gens = [cl for cl in ast.walk(st.value) if isinstance(cl, ast.Call) and (call_name(cl) or "").split(".")[-1] in ("CobaRandom", "Random", "iter", "count", "cycle")]
+                ctx.ob(rule, c.rel, f"{c.name}.{name}", st, "the stored value is not a generator/iterator object", not gens)
+    ctx.floor(rule, "attribute stores in evaluator classes", n, 10)
+
+
+def _no_entry_clear(tree):
+    """RejectionCB clears learning_info only after it was copied into a row (never on entry / per iteration)."""
+    from ..mutate import find_def
+    fn = find_def(tree, "RejectionCB.evaluate")
+    hit = 0
+    for node in ast.walk(fn):
+        for field in ("body", "orelse"):
+            body = getattr(node, field, None)
+            if isinstance(body, list):
+                keep = [s for s in body if not (isinstance(s, ast.Expr) and ast.unparse(s).endswith(".clear()") and "info" in ast.unparse(s))]
+                hit += len(body) - len(keep)
+                if len(keep) != len(body):
+                    body[:] = keep or [ast.Pass()]
+    if not hit:
+        raise M.TargetMissing("no info.clear() in RejectionCB.evaluate")
+
+
 def _task_reduce(tree):
     from ..mutate import find_def
     cls = find_def(tree, "Task")
@@ -510,6 +626,9 @@ def _class_cache(tree):
 
 
 CONTROLS = [
+    ("RejectionCB no longer clears learning_info on entry", SEQ, _no_entry_clear, "C03.R11"),
+    ("chunk-local copy flag", PROC, M.insert_after("ChunkTasks._chunks", M.text_has("chunk_sorter ="), "for c in chunks.values():\n    for t in c: t.copy = False"), "C03.R12"),
+    ("RejectionCB keeps its generator", SEQ, M.insert_after("RejectionCB.__init__", M.text_has("self._seed"), "self._rng = CobaRandom(seed)"), "C03.R13"),
     ("Task.__reduce__ forgets the copy flag", PROC, _task_reduce, "C03.R9"),
     ("call convention remembered per learner class", "coba/safety.py", _class_cache, "C03.R8"),
     ("drop deepcopy", PROC, M.replace_stmt("ProcessTasks.filter", M.text_has("lrn = deepcopy(lrn)"), "pass"), "C03.R1"),
